@@ -224,3 +224,36 @@ def v_rotate(c, order, r, whole):
                 else:
                     v = W.E(pos, i, j)
                     c.ensure("non_negative", (v != v) or v >= -1e-12)
+
+
+@contract("wavespectra.specarray:SpecArray.rotate", props=["C08"], name="duplicated_seam_bin",
+          scenarios=[{"equal_ends": True}, {"equal_ends": False}], replays=6)
+def v_rotate_duplicated_seam(c, equal_ends):
+    """BOUNDED (run-time contract): source grids that hold both 0 and 360 (e.g. np.arange(0, 361, 10), as
+    instrument files do): for every angle the coordinates are kept, Hs of every spectrum is kept,
+    nothing becomes negative; 360 degrees is the identity"""
+    if c.m.symbolic:
+        c.ensure_true("placeholder_structural", True)
+        return
+    import numpy as np
+    import xarray as xr
+
+    r = np.random.default_rng(c.rng.randint(0, 2**31))
+    step = c.rng.choice([10.0, 30.0, 45.0, 90.0])
+    d = np.arange(0.0, 360.0 + step / 2, step)
+    nf, nt = c.rng.randint(2, 5), c.rng.randint(1, 3)
+    f = 0.05 * 1.15 ** np.arange(nf)
+    E = r.uniform(0, 2, (nt, nf, d.size)) * np.exp(-((d[None, None, :] - r.uniform(0, 360)) / 60.0) ** 2)
+    if equal_ends:
+        E[..., -1] = E[..., 0]
+    da = xr.DataArray(E, dims=("time", "freq", "dir"), coords={"time": np.arange(nt), "freq": f, "dir": d}, name="efth")
+    angle = c.rng.choice([float(r.uniform(-400, 400)), step, -2 * step, 3.3, 185.0])
+    out = c.call(da.spec, angle)
+    c.ensure_true("direction_coordinates_kept", list(out.dims) == list(da.dims) and bool(np.array_equal(out["dir"].values, d)), f"{out['dir'].values}")
+    h0, h1 = da.spec.hs().values, out.spec.hs().values
+    c.ensure_true("hs_kept", bool(np.allclose(h1, h0, rtol=1e-6, atol=1e-12)), f"angle {angle} step {step}: hs {h0} -> {h1}")
+    v = out.values
+    c.ensure_true("non_negative", bool(np.all((v != v) | (v >= -1e-12))), f"min {np.nanmin(v)}")
+    if equal_ends:
+        same = c.call(da.spec, 360.0)
+        c.ensure_true("rotation_by_360_is_the_identity", bool(np.allclose(same.transpose(*da.dims).values, E, rtol=1e-6, atol=1e-9)), "differs")
